@@ -253,6 +253,12 @@ const (
 // any of them runs), every schedule with at most maxPre preemptions.
 func scenario(ops []int, nInit int, hash int, maxPre int, checks int) {
 	cfg := stackCfg(hash)
+	for _, op := range ops {
+		if op == opTwoTables {
+			// multi-table transactions also without name checking (another code path)
+			cfg.SkipNameCheck = VerifChoose(2) == 1
+		}
+	}
 	dir := VerifTempDir()
 	if checks&monList != 0 {
 		VerifMonitor("list")
@@ -340,12 +346,9 @@ func finalChecks(dir string, cfg Config, nInit int, procs []*procState, checks i
 			continue
 		}
 		at, committed := first[p]
-		if p.op == opAdd || p.op == opOpenAdd || p.op == opTwoTables {
-			VerifAssert((p.err == nil) == committed, "add-result-matches-commit")
-		} else {
-			// Add followed by auto-compaction: the compaction's failure is reported too
-			VerifAssert(p.err != nil || committed, "add-result-matches-commit")
-		}
+		// Add returns success exactly when its transaction was committed (an
+		// automatic compaction that loses a lock race afterwards is not a failure of the Add)
+		VerifAssert((p.err == nil) == committed, "add-result-matches-commit")
 		if committed && p.op == opTwoTables {
 			want["p"+string([]byte{'0' + p.id})] = 1
 			want["t"+string([]byte{'0' + p.id})] = 2
